@@ -171,7 +171,8 @@ def run(ctx):
     if n_str["ok"]:
         ctx.ok("C09.R-str-guard", {"str_slicing_sites": n_str["n"], "discharged": n_str["ok"]}, n=n_str["ok"], sample=True)
     ctx.extra["str_slicing_sites"] = dict(n_str)
-    ctx.floor("str slicing sites under the parser entry points", n_str["n"], 25)   # 50 counted; the floor only guards against vacuity
+    ctx.floor("str slicing sites under the parser entry points", n_str["n"], 10)   # 50 counted; the floor only guards against vacuity
+    # (a parser that reads single bytes through `as_bytes()[i]` keeps about 15 `str` slices: the weight tails and the card pair)
     if ctx.tier == "thorough":
         from sa import xref
         xref.cross_check(ctx, F, ["string_slice", "unwrap_used", "expect_used", "indexing_slicing", "panic"])
@@ -186,5 +187,13 @@ def run(ctx):
     except (Unrecognised, NameError) as e:
         if isinstance(e, Unrecognised):
             ctx.unrecognised("C09.distinct-cards", e.msg, e.fn, e.line)
+    # .. and a text whose tokens are all rejected parses to an EMPTY range: the evaluator must end the enumeration instead of
+    # indexing an empty entry list (C08's emptiness rule, evaluated here as well)
+    try:
+        from rules import c08, evalmodel
+        from sa.report import PrefixCtx
+        c08.rule_nonempty(PrefixCtx(ctx, "C08", "C09", allowed=["R-nonempty"]), evalmodel.get(F))
+    except Unrecognised as e:
+        ctx.unrecognised("C09.R-nonempty", e.msg, e.fn, e.line)
     ctx.assume("regex and std functions outside the panicking-callee table are total; allocation does not fail")
     ctx.assume("tokens handed to expansion were obtained by parsing (HandRangeToken::new with arbitrary fields is outside the property)")
